@@ -24,7 +24,7 @@ ASSUMPTIONS = [
     "no random sentences beyond the bound are drawn (that would be sampling)",
 ]
 BOUNDS = {"quick": {"dt_steps": 3, "pairs": "same-block"}, "thorough": {"dt_steps": 4, "pairs": "same-block+triples"}}
-LITERALS = ('""', '"a"', '"\\""', '"\\\\"', '"\\x41"', '"A"', '"a\nb"', '"# ; { }"', '"a b"', '"a  b"', '"a\tb"', '" a"', '"{\n\n}"', '"\n\n"', '";\n\n{\n"', '"}\n\n\n{ ;"', '"don\\\'t"', '"\\\\\'"', '"\'"', '"\u00fc"', '"\u00e9\u00ff\u00a0x"', '"\u03a9"')
+LITERALS = ('""', '"a"', '"\\""', '"\\\\"', '"\\x41"', '"A"', '"a\nb"', '"# ; { }"', '"a b"', '"a  b"', '"a\tb"', '" a"', '"{\n\n}"', '"\n\n"', '";\n\n{\n"', '"}\n\n\n{ ;"', '"don\\\'t"', '"\\\\\'"', '"\'"', '"\u00fc"', '"\u00e9\u00ff\u00a0x"', '"\u03a9"', '"a\rb"', '"a\r\nb"', '"a\x0cb\x0bc"', '"a\x1cb\x1dc\x1ed"', '"a\x85b"', '"a\u2028b\u2029c"')
 DT_POSITIONS = [
     ("http_stager", "client", "http_options", "output"), ("http_stager", "server", "http_options", "output"),
     ("http_get", "client", "http_client", "metadata"), ("http_get", "client", "http_client", "id"), ("http_get", "client", "http_client", "output"), ("http_get", "server", "http_options", "output"),
@@ -90,7 +90,7 @@ def leaf_forms(st, kind="start", out=None):
     return out
 
 
-def roundtrip(cp, sent, style=0):
+def roundtrip(cp, sent, style=0, read_first=False):
     """None if fine, else (signature, expected, observed)."""
     toks = RP.sentence_tokens(sent)
     src = RP.render(toks, style)
@@ -98,6 +98,15 @@ def roundtrip(cp, sent, style=0):
         p1 = cp.C2Profile.from_text(src)
     except Exception as e:  # noqa
         return "C10/parse/rejected", toks, f"{type(e).__name__}: {str(e)[:200]}"
+    if read_first:
+        # the other views of the profile are read before the text is regenerated
+        try:
+            p1.as_dict()
+            p1.properties
+            if p1.tree != cp.C2Profile.from_text(src).tree:
+                return "C10/reading-the-dictionary-changes-the-tree", toks, str(p1.tree)[:300]
+        except Exception as e:  # noqa
+            return "C10/as_dict/exception", toks, f"{type(e).__name__}: {str(e)[:200]}"
     try:
         text = p1.as_text()
     except Exception as e:  # noqa
@@ -132,6 +141,8 @@ def path_entry(acc, cp, sent, label):
 
     toks = RP.sentence_tokens(sent)
     src = RP.render(toks, 1)
+    if "\r" in src:
+        return  # text-mode file reading translates CR / CRLF (universal newlines): not the same text any more
     if "dir" not in _TMP:
         _TMP["dir"] = tempfile.mkdtemp(prefix="vmc_c10_")
     path = os.path.join(_TMP["dir"], "p.profile")
@@ -158,16 +169,16 @@ def path_entry(acc, cp, sent, label):
         acc.fail(bad[0], {"kind": "path", "tokens": toks}, bad[1], bad[2])
 
 
-def run_sentence(acc, cp, sent, label, style=0):
+def run_sentence(acc, cp, sent, label, style=0, read_first=False):
     acc.transitions += 1
-    bad = roundtrip(cp, sent, style)
+    bad = roundtrip(cp, sent, style, read_first)
     toks = RP.sentence_tokens(sent)
     for st in sent:
         for fid in leaf_forms(st):
             acc.count("form:" + fid)
-    acc.case((label, tuple(toks), style), nontrivial=bool(toks), outcome=bad[0] if bad else len(toks))
+    acc.case((label, tuple(toks), style, read_first), nontrivial=bool(toks), outcome=bad[0] if bad else len(toks))
     if bad:
-        acc.fail(bad[0], {"kind": "sentence", "tokens": toks, "style": style}, bad[1], bad[2])
+        acc.fail(bad[0], {"kind": "sentence", "tokens": toks, "style": style, "read_first": read_first}, bad[1], bad[2])
 
 
 def chunk_single(chunk, acc):
@@ -183,7 +194,7 @@ def chunk_single(chunk, acc):
                 lits = (lit,) if f[3] == 1 else (lit, LITERALS[(LITERALS.index(lit) + 3) % len(LITERALS)])
                 run_sentence(acc, cp, wrap(kind, mk(f, lits)), "single", style=0)
                 path_entry(acc, cp, wrap(kind, mk(f, lits)), "single")
-            run_sentence(acc, cp, wrap(kind, mk(f)), "single", style=1)
+            run_sentence(acc, cp, wrap(kind, mk(f)), "single", style=1, read_first=True)
         else:
             run_sentence(acc, cp, wrap(kind, mk(f)), "single", style=0)
             run_sentence(acc, cp, wrap(kind, mk(f)), "single", style=1)
@@ -324,10 +335,11 @@ def chunk_variants(chunk, acc):
     cp = profile_env.install(True)
     vb = [f for f in RP.PRODUCTIONS["start"] if f[0] == "b" and f[3]]
     for f in vb:
-        for variant in (None, '"default"', '"v1"', '"a b"', '""'):
+        for variant in (None, '"default"', '"Default"', '"v1"', '"a b"', '""'):
             for body in ([], [mk(RP.PRODUCTIONS[f[4]][0])], [mk(x) for x in RP.PRODUCTIONS[f[4]][:3]]):
                 acc.states += 1
                 run_sentence(acc, cp, [("b", f[1], f[2], variant, f[4], body)], "variant")
+                run_sentence(acc, cp, [("b", f[1], f[2], variant, f[4], body)], "variant", read_first=True)
         # the same block twice with different variants
         run_sentence(acc, cp, [("b", f[1], f[2], None, f[4], []), ("b", f[1], f[2], '"v1"', f[4], [mk(RP.PRODUCTIONS[f[4]][0])]), ("b", f[1], f[2], '"v2"', f[4], [])], "variant-rep")
     acc.sample({"variant_blocks": [f[2] for f in vb], "variants": [None, "default", "v1", "a b", ""]})
@@ -444,6 +456,9 @@ def replay(case):
     src = RP.render(toks, case.get("style", 0))
     try:
         p1 = cp.C2Profile.from_text(src)
+        if case.get("read_first"):
+            p1.as_dict()
+            p1.properties
         text = p1.as_text()
         got = RP.tokenize(text)
         ok = got == toks and cp.C2Profile.from_text(text).tree == p1.tree
